@@ -90,6 +90,33 @@ CHECKS = {
             'full-dimension Krylov; norm and energy conservation of tdvp1site at every rank; trajectory structure; inputs untouched. '
             'Exploration, not proof.',
             'Trusts SciPy expm; initial states are right-orthonormal and of order >= 2; Krylov only for N <= 16.', '3/C11'),
+    'C16': ('property-based testing (Hypothesis): differential against numpy.linalg.pinv of the explicit transformed data matrix; residual monotonicity for ARR',
+            'Generated data (under-/over-determined, duplicated snapshots), scalar and product bases, thresholds chosen below the '
+            'relevant singular-value ratios, regular and exactly singular Gram matrices, ARR guesses and sweep counts; checks '
+            'Xi == (y pinv(Psi))^T, fitted values of the kernel variant, residual descent / rank retention / untouched guess for ARR. '
+            'Exploration, not proof.',
+            'Trusts NumPy; guard bands on singular-value ratios (ill-conditioned cases are discarded).', '3/C16'),
+    'C17': ('property-based testing (Hypothesis): differential against matrix DMD (numpy svd/eig) with scale-free eigen-equations',
+            'Generated low-rank snapshot tensors (TT-SVD, random gauge, pre-orthonormalised with flags off, rescaled by 10^k), exact '
+            'and standard variants, thresholds; eigenvalue multisets, exact/projected mode equations, inputs untouched, consistent '
+            'result objects. Exploration, not proof.',
+            'Real data; simple non-zero DMD spectra (others discarded); thresholds below the non-zero singular values.', '3/C17'),
+    'C18': ('property-based testing (Hypothesis): differential against dense EDMD + metamorphic batch == singles',
+            'Generated data, product bases, lagged and random-subset index sets singly and in lists, HOSVD and HOCUR variants; '
+            'eigenvalues and their ordering by |lambda-1| (also for complex spectra), eigen-equation for real simple spectra, batch '
+            'call equal to single calls in eigenvalues and dense eigentensors, consistent result objects. Exploration, not proof.',
+            'Trusts NumPy; guard bands around the 1e-3 cut and on the conditioning of Psi.', '3/C18'),
+    'C19': ('property-based testing (Hypothesis): product-rule oracle from harness-side closed-form derivatives; dense projected generator',
+            'Generated bases (2..4 modes, shared coordinates), drift / reversible, square and non-square diffusion, reweighting, '
+            'absolute/relative thresholds, return options, num_eigvals; generator_on_product(_reversible) against the product rule, '
+            'tgEDMD eigenvalues against the dense projected generator. Exploration, not proof.',
+            'Trusts NumPy; thresholds far below the singular values of Psi (a genuine cut of the sequential SVD is not comparable).',
+            '3/C19'),
+    'C20': ('property-based testing (Hypothesis): exact prediction by dense inverse-CDF sampling on harness-owned uniform variates (chi-square fallback)',
+            'Generated normalised right-orthonormal states (entangled up to 7 qubits, block products up to ~120 qubits), measured '
+            'subsets and sample counts; the sampler receives a Hypothesis-seeded uniform matrix through numpy.random.rand and its '
+            'output must equal numpy.unique of the bit matrix predicted from the dense Born probabilities. Exploration, not proof.',
+            'Trusts NumPy; numpy.random.rand is replaced around the call; matplotlib replaced by an import stub.', '3/C20'),
 }
 
 BUILT = set(CHECKS)
